@@ -195,7 +195,8 @@ def run(ctx):
     iso = dict(name="isolate-popstale", engine="mem",
                args=["-vnode", vnode, "-engine", "mem", "-kind", "popstale", "-seed", str(ctx.seed)])
     stats["isolate"] = {}
-    iso2 = dict(name="isolate-delswallow", engine="mem",
+    # delswallow: strict since d21256b (DEL / EXISTS answer the error of a failed sub-command)
+    iso2 = dict(name="stage-delswallow", engine="mem",
                 args=["-vnode", vnode, "-engine", "mem", "-kind", "delswallow", "-seed", str(ctx.seed)])
     for r in V.parallel(do, [iso, iso2], n=2):
         if r[1] is not None and r[3] is not None:
@@ -277,8 +278,8 @@ def run(ctx):
         "history order is the parent process's own order of sending and receiving",
         "after a settle barrier (all replicas up, write barrier, equal applied index twice in a row) an unanswered "
         "operation is assumed not to take effect any more",
-        "LPOP / RPOP are only sent to the replica that reports itself leader (known finding c04-pop-precheck-local-read); "
-        "the isolate stage checks the follower path",
+        "LPOP / RPOP / SETNX are only sent to the replica that reports itself leader (known finding "
+        "c04-pop-precheck-local-read); the isolate stage checks the follower path",
         "nemesis: process kill, graceful stop, leader transfer, one replica at a time; no network partitions "
         "(C01-C03 cover message loss at the raft level)",
         "an epoch that cannot be closed by a barrier in time is dropped and counted, never judged",
